@@ -116,7 +116,7 @@ def handler_request(ctx, job):
     """one request through the real handle_cmd_ctx (async handlers polled to completion): no panic, every loop bounded
     by the request, and the request is answered"""
     from props import executor as X
-    def setup(e): e.loop_budget = 64
+    def setup(e): e.loop_budget = 64; e.sleep_budget = 16
     def run(e):
         h, mgr, redis = X.make_handler(e, 'Disabled', AnyRedis(), active_redirection=job.get('active', False))
         elems = []; syms = {}
@@ -133,7 +133,7 @@ def handler_request(ctx, job):
                 if isinstance(el, RVec): out.append(list(str(concretize(un(el.text).s[0].v, m)).encode()))
                 else: out.append([concretize(b, m) for b in el])
             return out
-        e.notes['replay_fn'] = lambda m: {'kind': 'rust-test', 'filter': 'verif_replay_request_bounded', 'spec': {'cmd': concrete(m), 'max_ms': 5000}}
+        e.notes['replay_fn'] = lambda m: {'kind': 'rust-test', 'filter': 'verif_replay_request_bounded', 'spec': {'cmd': concrete(m), 'max_ms': 5000, 'active': bool(job.get('active', False))}}
         ctxv, rcv = X.make_cmd_ctx(e, [el if not isinstance(el, RVec) else [] for el in elems])
         # install the text-backed number elements into the request (bytes = canonical decimal text of a symbolic number)
         if any(isinstance(el, RVec) for el in elems):
@@ -175,6 +175,11 @@ def handler_jobs(quick):
     for name in (b'BLPOP', b'BRPOP', b'BZPOPMIN', b'BZPOPMAX'):
         jobs.append({'kind': 'handler', 'name': name.decode() + ' k k <any u64 timeout>', 'req': [name, b'{t}a', b'{t}b', '#']})
     jobs.append({'kind': 'handler', 'name': 'BRPOPLPUSH a b <any u64 timeout>', 'req': [b'BRPOPLPUSH', b'{t}a', b'{t}b', '#']})
+    for name in (b'BLPOP', b'BRPOP', b'BZPOPMIN', b'BZPOPMAX', b'BRPOPLPUSH'):
+        for active in (False, True):
+            # degenerate shapes: only the timeout, one key and the timeout
+            jobs.append({'kind': 'handler', 'name': '%s <any u64 timeout> only (active redirection %s)' % (name.decode(), active), 'req': [name, '#'], 'active': active})
+            jobs.append({'kind': 'handler', 'name': '%s k <any u64 timeout> (active redirection %s)' % (name.decode(), active), 'req': [name, b'{t}a', '#'], 'active': active})
     names = command_names()
     argcs = (0, 1, 2, 3, 5) if not quick else (0, 1, 2, 4)
     for n in names:
